@@ -330,7 +330,7 @@ func (s *Sim) fixedPointDefect(set *asv1.StatefulSet) string {
 		}
 		live[ord] = p
 	}
-	for ord := range D {
+	for _, ord := range sortedOrdinals(D) {
 		p, ok := live[ord]
 		if !ok {
 			return fmt.Sprintf("missing: desired ordinal %d has no pod", ord)
@@ -339,7 +339,13 @@ func (s *Sim) fixedPointDefect(set *asv1.StatefulSet) string {
 			return fmt.Sprintf("unhealthy: pod %s not Running+Ready", p.Name)
 		}
 	}
-	for ord, p := range live {
+	liveOrds := make([]int32, 0, len(live))
+	for ord := range live {
+		liveOrds = append(liveOrds, ord)
+	}
+	sort.Slice(liveOrds, func(i, j int) bool { return liveOrds[i] < liveOrds[j] })
+	for _, ord := range liveOrds {
+		p := live[ord]
 		if !D[ord] {
 			return fmt.Sprintf("extra: pod %s outside the desired set %v", p.Name, sortedOrdinals(D))
 		}
@@ -352,7 +358,8 @@ func (s *Sim) fixedPointDefect(set *asv1.StatefulSet) string {
 			part = *ru.Partition
 		}
 		want := templateContent(&set.Spec.Template)
-		for ord, p := range live {
+		for _, ord := range liveOrds {
+			p := live[ord]
 			if ord < part {
 				continue
 			}
